@@ -119,6 +119,19 @@ def run(res):
             "exhaustive": res.tier == "thorough",
             "exhaustive_note": "thorough tier enumerates every ttl 1..255 x every hop count on all 8 hop-counting receivers",
         })
+    # the STAR relay at the hop limit: what a member accepts it also passes on (hop byte + 1), whatever its own TTL --
+    # the histories of harness/cmd/l1busstar restricted to star / xstar, against Model/BusStar.v
+    from .. import l1
+    from .c08 import ORACLES as STAR_ORACLES
+    keep = dict(res.coverage)
+    l1.run(res, "C09", "busstar", "Model.BusStar Model.BusStarOracle", "bs_model", "BS0", STAR_ORACLES,
+           "STAR behaviour differs from the model (Model/BusStar.v): which pipes get the relayed copy with which hop byte, what is delivered up",
+           env={"L1_KINDS": "star,xstar", "L1_PER_WORKER": "25", "L1_PER_TIMED_WORKER": "3"}, sub="star")
+    star = {k: res.coverage.get(k) for k in ("evaluations", "distinct_nontrivial", "distribution", "rule") if k in res.coverage}
+    res.coverage.update(keep)
+    res.coverage["star_relay_histories"] = star
+    if isinstance(res.coverage.get("evaluations"), int) and isinstance(star.get("evaluations"), int):
+        res.coverage["evaluations"] += star["evaluations"]
     for n, e in failed:
         res.violation("obligation:" + n, "generated obligation %s no longer checks against the constants re-extracted from /repo" % n,
                       {"theorem": n, "coqc": e, "translator": "harness/cmd/consts"}, found_input=(found > 0))
